@@ -713,8 +713,10 @@ class XsdElement(XsdComponent, ParticleMixin,
                 inherited.update((k, v) for k, v in obj.attrib.items() if k in self.inheritable)
             else:
                 inherited = {k: v for k, v in obj.attrib.items() if k in self.inheritable}
+            parent_context = context
             context = _copy(context)
             context.inherited = inherited
+            parent_context.id_list = id_list  # the copy keeps the ID list of the element
 
         # Checks the xsi:nil attribute of the instance
         if nm.XSI_NIL in obj.attrib:
